@@ -621,6 +621,94 @@ pub fn run(ctx: &Ctx) -> Report {
     });
     rep.merge(r);
 
+    // ---- (f) replies of exactly T wire packets for T around the multiples of 256 (the one-byte
+    //          sequence id is back at its starting value after 256 packets): still one response,
+    //          nothing after it, and the next reply is the next command's
+    if !ctx.miri {
+        let mut targets: Vec<usize> = (253..=259).chain(509..=515).collect();
+        if ctx.thorough {
+            targets.extend((765..=771).chain(1021..=1027).chain(2045..=2051).chain(4093..=4099));
+        }
+        let per = if ctx.thorough { 12 } else { 3 };
+        let n = (targets.len() * 2 * per) as u64;
+        let r = par_cases(ctx, "C03", "packet-count", n, |rng, i, rep| {
+            let bin = i % 2 == 1;
+            let t = targets[(i as usize / 2) % targets.len()];
+            // sets before the final one, then a final set whose row count makes the total exact
+            let (ss, fin, npk) = loop {
+                let nbefore = rng.below(4) as usize;
+                let mut ss = Vec::new();
+                let mut used = 0usize;
+                for _ in 0..nbefore {
+                    if rng.chance(1, 3) {
+                        ss.push(SetSpec { cols: None, rows: 0, style: 0 });
+                        used += 1;
+                    } else {
+                        let nc = *rng.pick(&[1usize, 2, 3, 8]);
+                        let rows = rng.below(t as u64 / 3) as usize;
+                        ss.push(SetSpec { cols: Some(nc), rows, style: if rows == 0 { 0 } else { rng.below(3) as u8 } });
+                        used += nc + rows + 3;
+                    }
+                }
+                let nc = *rng.pick(&[1usize, 1, 2, 5]);
+                // final: a set (nc + rows + 3 packets), or a set followed by an OK/ERR (one more)
+                let tail = rng.below(3);
+                let extra = if tail == 0 { 0 } else { 1 };
+                if used + nc + 3 + extra > t {
+                    continue;
+                }
+                let rows = t - used - nc - 3 - extra;
+                let last = SetSpec { cols: Some(nc), rows, style: if rows == 0 { 0 } else { rng.below(3) as u8 } };
+                let fin = match tail {
+                    0 => {
+                        if rng.bool() {
+                            Final::SetFinish(last)
+                        } else {
+                            Final::SetFinishErr(last)
+                        }
+                    }
+                    1 => {
+                        ss.push(last);
+                        Final::Completed
+                    }
+                    _ => {
+                        ss.push(last);
+                        Final::Error
+                    }
+                };
+                break (ss, fin, t);
+            };
+            let (prog, pred) = build_prog(&ss, &fin, bin);
+            let predicted_packets: usize = pred.iter().map(|p| match p { PPart::Ok | PPart::Err => 1, PPart::Rows { ncols, nrows, .. } => ncols + nrows + 3 }).sum();
+            assert_eq!(predicted_packets, npk, "harness: packet-count construction");
+            rep.counters.class(format!("{} reply of {} packets ({} mod 256)", if bin { "bin" } else { "text" }, len_class(npk), npk % 256));
+            let mut cmds = vec![Cmd::prepare(b"p")];
+            let mut scripts = vec![Script::PrepOk { id: 1, params: vec![], cols: vec![] }];
+            cmds.push(if bin { Cmd::execute(1, &[], false) } else { Cmd::query(b"q") });
+            scripts.push(Script::Q(prog.clone()));
+            // a second, tiny, distinguishable command behind it
+            cmds.push(Cmd::query(b"q2"));
+            scripts.push(Script::Q(QProg::completed(41, 42)));
+            let case = Case::new(with_sentinels(cmds), scripts);
+            let obs = run_case(&case);
+            rep.evaluations += 1;
+            let d = || J::obj().set("mode", if bin { "binary" } else { "text" }).set("reply_packets", npk).set("sets", ss.len()).set("outcome", obs.outcome.describe());
+            if i == 0 {
+                rep.sample(d());
+            }
+            if check_conformance("C03", &obs, &[None, Some(pred), Some(vec![PPart::Ok])], rep, &d) {
+                rep.counters.inc("replies_with_exact_packet_count");
+                if npk % 256 == 0 {
+                    rep.counters.inc("replies_of_a_multiple_of_256_packets");
+                }
+            }
+        });
+        rep.merge(r);
+        if ctx.strict() {
+            rep.require("replies_of_a_multiple_of_256_packets", 2);
+        }
+    }
+
     rep.merge(super::mega::run(ctx, "C03", 1500, 60000));
     if ctx.strict() {
         for k in ["sentinel_pings_matched", "responses_compared_with_prediction", "more_results_set", "more_results_clear", "units_ok", "units_err", "units_resultset", "shape_contradictions_refused"] {
